@@ -188,10 +188,16 @@ func checkC09(p *Program, r *Report) {
 					if x.Op != token.EQL && x.Op != token.NEQ {
 						continue
 					}
-					if k, ok := constInt(x.Y); !ok || k != 0 {
+					// the masked load is on one side and the constant 0 on the other (benign round 4, C09-y1:
+					// `0 == filter[idx>>3]&(1<<(idx&7))`)
+					andV, zeroV := x.X, x.Y
+					if _, isK := constInt(x.X); isK {
+						andV, zeroV = x.Y, x.X
+					}
+					if k, ok := constInt(zeroV); !ok || k != 0 {
 						continue
 					}
-					and, ok := x.X.(*ssa.BinOp)
+					and, ok := andV.(*ssa.BinOp)
 					if !ok || and.Op != token.AND {
 						continue
 					}
@@ -228,7 +234,10 @@ func checkC09(p *Program, r *Report) {
 			wMask = side
 		}
 	}
-	rand := rTest.X.(*ssa.BinOp)
+	rand, isAnd := rTest.X.(*ssa.BinOp)
+	if !isAnd || rand.Op != token.AND {
+		rand = rTest.Y.(*ssa.BinOp)
+	}
 	var rMask ssa.Value
 	var ria *ssa.IndexAddr
 	for _, side := range []ssa.Value{rand.X, rand.Y} {
@@ -501,6 +510,18 @@ func checkC09(p *Program, r *Report) {
 					if ms, ok := c.Call.Args[0].(*ssa.MakeSlice); ok {
 						if okP, _ := prN.Prove(c.Block(), lcN.Lin(ms.Len).addConst(-maxSize)); okP {
 							okSize, howSize = true, "make([]byte, n) with n ≤ limit proved from the branch facts"
+						}
+						// n = x / d (or x >> s) with x ≤ limit·d from the branch facts (benign round 4, C09-y2: the min helper
+						// written out as `if x > limit·8 { x = limit·8 }`)
+						if q, ok := stripIntConv(ms.Len).(*ssa.BinOp); ok && !okSize && (q.Op == token.QUO || q.Op == token.SHR) {
+							if div, isK := constInt(q.Y); isK && div > 0 {
+								if q.Op == token.SHR {
+									div = 1 << uint(div)
+								}
+								if okP, _ := prN.Prove(c.Block(), lcN.Lin(stripIntConv(q.X)).addConst(-maxSize*div)); okP {
+									okSize, howSize = true, fmt.Sprintf("make([]byte, x/%d) with x ≤ %d proved from the branch facts", div, maxSize*div)
+								}
+							}
 						}
 					}
 				}
